@@ -1654,7 +1654,9 @@ class tensor:
         shape = np.array(self.shape, dtype=int)
         n = dims[0]
         order = np.array([n, *list(range(0, n)), *list(range(n + 1, self.ndims))])
-        newdata = self.permute(order).data
+        # As real numbers: integer, boolean or single precision storage must not
+        # wrap around or saturate in the sums of products
+        newdata = as_float_if_needed(self.permute(order).data)
         ids = np.array(list(range(0, n)) + list(range(n + 1, self.ndims)))
         second_dim = 1
         if len(ids) > 0:
